@@ -705,6 +705,7 @@ def judge(c, o):
     if "protocol version" in msg or "unsupported protocol" in msg or "no protocols available" in msg:
         cnt.append("iora_version_refusals_seen")
     if "floor" in reasons and not adm: cnt.append("floor_cells_refused")
+    if floor_class(c): cnt.append(floor_class(c))
     if c["peer"] != "openssl" and not adm: cnt.append("hostile_peer_cells_refused")
     if o.get("start_ok") is False: cnt.append("config_failfast_seen")
     if p.get("hs_ok", 0) > 0:
@@ -791,12 +792,23 @@ COORDS = ("peer", "garbage", "verify", "trust", "icert", "imin", "tlscfg", "pcer
           "seq", "speer", "verify1", "trust1", "ishape")
 
 
+def floor_class(c):
+    """version-limit class of a cell: (entry, configured minVersion, peer ceiling) for every cell whose peer ceiling
+    is <= TLS 1.2 - the cells that pin the hard floor, the honouring of a configured minimum and the clamp of a
+    configured minimum BELOW 1.2. None for all other cells."""
+    if c["entry"] == SEQ_ENTRY or c["peer"] != "openssl" or c["pmax"] > 12 or c["life"] != "fresh" or c["tlscfg"] != "enabled":
+        return None
+    return "floor_class[%s min=%s peer-max=%s]" % (c["entry"], c["imin"] or "unset", c["pmax"])
+
+
 def covering_subset(cells, rng, target):
     """greedy cover of every (entry, coordinate, value), every single-reason must-reject class and
     every accept class / either class, seeded tie-breaking; padded with seeded picks."""
     feats = []
     for c in cells:
         f = set((c["entry"], k, c[k]) for k in COORDS)
+        if floor_class(c):
+            f.add(floor_class(c))          # every (entry, configured minimum, peer ceiling) class is in every quick cover
         if c["entry"] == SEQ_ENTRY:
             ex = expect_seq(c)
             f.add((SEQ_ENTRY, "seq-class", c["seq"], c["speer"], ex[0][1], ex[1][1], "+".join(ex[1][2])))
@@ -1049,6 +1061,7 @@ def run(ctx):
         "revocation, name constraints and cipher strength are out of reach",
         "must-accept cells that fail are re-run in isolation; only a reproduced refusal is reported",
     ]
+    ctx.require_obs(*sorted(set(floor_class(c) for c in full if floor_class(c))))
     ctx.require_obs("cells_executed", "must_reject_refused", "must_accept_admitted", "iora_verify_failures_seen",
                     "floor_cells_refused", "floor_observable_tls11_reference", "floor_observable_tls10_reference",
                     "hostile_peer_cells_refused", "relay_tls_records_seen", "client_cert_seen_by_peer",
